@@ -180,6 +180,78 @@ theorem contract_of_icontract (B : Nat) (hB : 2 ≤ B) (m : Mode) (p k : Nat) (h
   · intro hf
     exact mul_lt_mul_of_pos_right (by exact_mod_cast h.subOne hf) hu
 
+/-- general form: unit `D > 0` (any integer), scale `u > 0` with `D · u = B^e` -/
+theorem contract_of_icontract' (B : Nat) (hB : 2 ≤ B) (m : Mode) (p : Nat) (hp : 1 ≤ p) (D X R : Int) (hD : 0 < D)
+    (flag : Option Rounding) (u : ℚ) (hu : 0 < u) (e : Int) (hunit : (D : ℚ) * u = bpowQ B e)
+    (h : IContract m D X R flag)
+    (hulp : D * ((B ^ (p - 1) : Nat) : Int) ≤ |X|) :
+    Contract B m p ((X : ℚ) * u) ((R : ℚ) * u) flag := by
+  have hB0 : 0 < B := by omega
+  have hne : (R : ℚ) * u ≠ (X : ℚ) * u := by
+    intro heq
+    have := mul_right_cancel₀ (ne_of_gt hu) heq
+    exact h.ne (by exact_mod_cast this)
+  refine ⟨?_, ?_, ?_, ?_, ?_⟩
+  · constructor
+    · intro hf; exact absurd hf h.flag_some
+    · intro hr; exact absurd hr hne
+  · intro _
+    refine ⟨e, ?_, ?_⟩
+    · have e1 : e + p - 1 = ((p - 1 : Nat) : Int) + e := by push_cast; omega
+      rw [e1, bpowQ_add B hB0, bpowQ_nat, ← hunit, absQ_eq, abs_mul, abs_of_pos hu]
+      have : ((B ^ (p - 1) : Nat) : ℚ) * ((D : ℚ) * u) = (((D * ((B ^ (p - 1) : Nat) : Int) : Int)) : ℚ) * u := by
+        push_cast; ring
+      rw [this]
+      apply mul_le_mul_of_nonneg_right _ (le_of_lt hu)
+      rw [← Int.cast_abs]
+      exact_mod_cast hulp
+    · unfold errOk
+      rw [← hunit, absQ_eq, ← sub_mul, abs_mul, abs_of_pos hu]
+      have herr := h.err
+      by_cases hh : m.isHalf = true
+      · simp only [hh, if_true] at herr ⊢
+        have : 2 * |((R : ℚ) - X)| ≤ (D : ℚ) := by
+          have hab : 2 * |R - X| ≤ D := by
+            rw [show (2 : Int) * |R - X| = |2 * (R - X)| by rw [abs_mul]; simp]
+            exact abs_le.mpr herr
+          have : ((2 * |R - X| : Int) : ℚ) ≤ ((D : Int) : ℚ) := by exact_mod_cast hab
+          push_cast at this
+          simpa using this
+        calc 2 * (|(R : ℚ) - X| * u) = (2 * |(R : ℚ) - X|) * u := by ring
+          _ ≤ (D : ℚ) * u := mul_le_mul_of_nonneg_right this (le_of_lt hu)
+      · simp only [hh, if_false, Bool.false_eq_true] at herr ⊢
+        have : |((R : ℚ) - X)| < (D : ℚ) := by
+          have hab : |R - X| < D := abs_lt.mpr herr
+          have : ((|R - X| : Int) : ℚ) < ((D : Int) : ℚ) := by exact_mod_cast hab
+          push_cast at this
+          simpa using this
+        exact mul_lt_mul_of_pos_right this hu
+  · have hs := h.side
+    unfold sideOk
+    cases m <;> simp only at hs ⊢
+    · rw [absQ_eq, absQ_eq, abs_mul, abs_mul, abs_of_pos hu]
+      apply mul_le_mul_of_nonneg_right _ (le_of_lt hu)
+      have : |R| ≤ |X| := by
+        rcases le_total 0 X with hx | hx
+        · have := hs.1 hx; rw [abs_of_nonneg this.1, abs_of_nonneg hx]; exact this.2
+        · have := hs.2 hx; rw [abs_of_nonpos this.2, abs_of_nonpos hx]; linarith [this.1]
+      have : ((|R| : Int) : ℚ) ≤ ((|X| : Int) : ℚ) := by exact_mod_cast this
+      simpa using this
+    · rw [absQ_eq, absQ_eq, abs_mul, abs_mul, abs_of_pos hu]
+      apply mul_le_mul_of_nonneg_right _ (le_of_lt hu)
+      have : |X| ≤ |R| := by
+        rcases le_total 0 X with hx | hx
+        · have := hs.1 hx; rw [abs_of_nonneg hx, abs_of_nonneg (by linarith)]; exact this
+        · have := hs.2 hx; rw [abs_of_nonpos hx, abs_of_nonpos (by linarith)]; linarith
+      have : ((|X| : Int) : ℚ) ≤ ((|R| : Int) : ℚ) := by exact_mod_cast this
+      simpa using this
+    · exact mul_le_mul_of_nonneg_right (by exact_mod_cast hs) (le_of_lt hu)
+    · exact mul_le_mul_of_nonneg_right (by exact_mod_cast hs) (le_of_lt hu)
+  · intro hf
+    exact mul_lt_mul_of_pos_right (by exact_mod_cast h.addOne hf) hu
+  · intro hf
+    exact mul_lt_mul_of_pos_right (by exact_mod_cast h.subOne hf) hu
+
 /-- an exact result satisfies the contract -/
 theorem contract_exact (B : Nat) (m : Mode) (p : Nat) (x : ℚ) : Contract B m p x x none := by
   refine ⟨by simp, fun h => absurd rfl h, ?_, by simp, by simp⟩
